@@ -173,3 +173,28 @@ func init() {
 		Assumptions: []string{trustDeps},
 	}
 }
+
+func init() {
+	Properties["C17"] = PropSpec{
+		Rules:       []Rule{KConsistent, ResultAlgebra},
+		Explanation: "(being extended) K-CONSISTENT: at each member-validation site of the object and slice validators the path suffix, the member selector and the merge key are the same SSA value, the child's constructor path contains it, and the missing-required error is named <path>.<k>; MEMBER-GUARD; RESULT-ALGEBRA: IsValid == len(Errors)==0, dedupe.",
+		NotDecided:  "Best-branch selection text for anyOf/oneOf; that every sub-validator uses its own Path in every message.",
+		Assumptions: []string{trustDeps},
+	}
+}
+
+func init() {
+	Properties["C16"] = PropSpec{
+		Rules: []Rule{Chain, Keywords("ParamValidator", simpleKeywords, "param_ctor_calls"), Keywords("HeaderValidator", simpleKeywords, "header_ctor_calls"), Keywords("itemsValidator", simpleKeywords, "items_ctor_calls"), KeywordGuard,
+			Narrow},
+		Explanation: "(being extended) CHAIN, KEYWORDS(simple), APPLIES-SOURCE, KEYWORD-GUARD, NARROW.",
+		NotDecided:  "Per-keyword predicates; the type inference table of schemaInfoForType.",
+		Assumptions: []string{trustDeps},
+	}
+	Properties["C01"] = PropSpec{
+		Rules:       []Rule{Keywords("SchemaValidator", schemaKeywords, "schema_ctor_calls"), NilPath, KeywordGuard, KConsistent, PoolCtor},
+		Explanation: "(being extended) KEYWORDS, NILPATH, KEYWORD-GUARD, K-CONSISTENT, POOL-CTOR.",
+		NotDecided:  "Whether each keyword's predicate agrees with draft 4.",
+		Assumptions: []string{trustDeps},
+	}
+}
